@@ -100,13 +100,15 @@ class GrouperAdd(Contract):
             "returns-self": r.e == me,
             "other-lists-untouched": z3.ForAll([o], z3.Implies(o != lst, z3.And(
                 z3.Select(s["list.arr"], o) == z3.Select(s0["list.arr"], o), z3.Select(s["list.len"], o) == z3.Select(s0["list.len"], o)))),
-            "duplicate:nothing-added": z3.Implies(dup, z3.And(n == n0, arr == arr0)),
-            "new:appended-with-these-fields": z3.Implies(z3.Not(dup), z3.And(
-                n == n0 + 1, z3.ForAll([k], z3.Implies(z3.And(k >= 0, k < n0), z3.Select(arr, k) == z3.Select(arr0, k))),
-                new >= s0["ghost.alloc"], new < s["ghost.alloc"], s.sel("CallbackSpec.func", new) == func, s.sel("CallbackSpec.group", new) == grp,
-                s.sel("CallbackSpec.cond", new) == ref_of(a.cond), s.sel("CallbackSpec.priority", new) == a.priority.e,
-                s.sel("CallbackSpec.is_convention", new) == a.is_convention.e,
-                s.sel("CallbackSpec.expected_value", new) == ref_of(a.expected_value))),
+            "nothing-added-or-one-appended-with-these-fields": z3.Or(
+                z3.And(n == n0, arr == arr0),
+                z3.And(n == n0 + 1, z3.ForAll([k], z3.Implies(z3.And(k >= 0, k < n0), z3.Select(arr, k) == z3.Select(arr0, k)),
+                                              patterns=[z3.Select(arr, k)]),
+                       new >= s0["ghost.alloc"], new < s["ghost.alloc"], s.sel("CallbackSpec.func", new) == func,
+                       s.sel("CallbackSpec.group", new) == grp, s.sel("CallbackSpec.cond", new) == ref_of(a.cond),
+                       s.sel("CallbackSpec.priority", new) == a.priority.e, s.sel("CallbackSpec.is_convention", new) == a.is_convention.e,
+                       s.sel("CallbackSpec.expected_value", new) == ref_of(a.expected_value))),
+            "appended-iff-no-equal-spec-was-there": (n == n0) == dup,
         }
 
     def assumptions(self):
@@ -132,10 +134,7 @@ class TransitionSetup(Contract):
     params = [("self", "Transition")]
     returns = "None"
     modifies = GrouperAdd.modifies
-    # NOT claimed: the invariant-preservation obligation (three appends with duplicate-or-new case splits
-    # under a quantified spec) stays `unknown` within the solver budget; the event scoping of
-    # convention callbacks is covered by the bounded scenario layer instead (see DESIGN).
-    properties = []
+    properties = ["C02"]
 
     def pre(self, s, a):
         t = a.self.e
@@ -172,8 +171,9 @@ class TransitionSetup(Contract):
         named = z3.Exists([j], z3.And(j >= 0, j < en, cond == SAMEEV(ev), z3.Or(*[
             z3.And(func == STR_REF(fmt1(ph + "_|{}")(s0.sel("Event.id", ev))), grp == G(g))
             for ph, g in (("before", "BEFORE"), ("on", "ON"), ("after", "AFTER"))])))
-        return z3.ForAll([k], z3.Implies(z3.And(k >= n0, k < n), z3.And(s.sel("CallbackSpec.is_convention", sp), z3.Or(generic, named))),
-                         patterns=[z3.Select(arr, k)])
+        return z3.ForAll([k], z3.Implies(z3.And(k >= n0, k < n), z3.And(
+            sp >= FIRST_ADDR, sp < s["ghost.alloc"], s.sel("CallbackSpec.is_convention", sp), z3.Or(generic, named))),
+            patterns=[z3.Select(arr, k)])
 
     def _old_kept(self, s0, s, a):
         specs = s0.sel("Transition._specs", a.self.e)
